@@ -158,4 +158,70 @@ Section Kernels.
     intros t t' Ht. specialize (Hd _ _ Ht).
     destruct (definite_value inner (maxf t)), (definite_value inner' (maxf t')); cbn [op_rel] in Hd; try contradiction; auto using sc_zero.
   Qed.
+
+  (* ================================================================================================================
+     4. to_base (through distribute_item_space_to_base_size: both thresholds) *)
+  Lemma rel_to_base flex uff (it : item XQ) sp sp' aff aff' lim lim' ct ts ts' :
+    L sp sp' -> affected_inv k aff aff' -> tfun_sc k lim lim' -> tracks_rel k ts ts' ->
+    tracks_rel k (to_base flex uff it sp aff lim ct ts) (to_base flex uff it sp' aff' lim' ct ts').
+  Proof.
+    intros Hsp Haff Hlim Hts. unfold to_base.
+    rewrite (sc_ltb k _ _ _ _ Hk (sc_zero k) Hsp). destruct (ltb zero sp); [|exact Hts].
+    apply rel_on_slice; [|exact Hts]. intros sl sl' Hsl.
+    change (tracks_rel k (distribute_item_space_to_base_size_t threshold base_threshold flex uff sp sl aff lim ct)
+                         (distribute_item_space_to_base_size_t threshold base_threshold flex uff sp' sl' aff' lim' ct)).
+    apply distribute_item_space_to_base_size_homog; assumption.
+  Qed.
+
+  (* ================================================================================================================
+     5. the flushes *)
+  Lemma rel_flush_planned_base ts ts' : tracks_rel k ts ts' -> tracks_rel k (flush_planned_base ts) (flush_planned_base ts').
+  Proof.
+    intros Hts. apply (rel_map (track_rel k) (track_rel k)); [|exact Hts]. intros t t' Ht. track_open Ht.
+    apply rel_set_base_planned; [| apply sc_zero]. apply rel_set_base; [exact Ht | apply sc_add; assumption].
+  Qed.
+
+  Lemma rel_flush_planned_growth_limit_increases b ts ts' :
+    tracks_rel k ts ts' -> tracks_rel k (flush_planned_growth_limit_increases b ts) (flush_planned_growth_limit_increases b ts').
+  Proof.
+    intros Hts. apply (rel_map (track_rel k) (track_rel k)); [|exact Hts]. intros t t' Ht. cbv zeta. track_open Ht.
+    apply rel_set_limit_planned; [|apply sc_zero].
+    rewrite (sc_ltb k _ _ _ _ Hk (sc_zero k) Hlp). destruct (ltb zero (limit_planned t)); apply rel_set_inf_growable; [|exact Ht].
+    apply rel_set_limit; [exact Ht|].
+    rewrite (sc_eqb_infinity k _ _ Hk Hgl). destruct (eqb (growth_limit t) infinity); apply sc_add; assumption.
+  Qed.
+
+  Lemma rel_fix_growth_limits ts ts' : tracks_rel k ts ts' -> tracks_rel k (fix_growth_limits ts) (fix_growth_limits ts').
+  Proof.
+    intros Hts. apply (rel_map (track_rel k) (track_rel k)); [|exact Hts]. intros t t' Ht. track_open Ht.
+    rewrite (sc_ltb k _ _ _ _ Hk Hgl Hbase). destruct (ltb (growth_limit t) (base_size t)); [apply rel_set_limit|]; assumption.
+  Qed.
+
+  Lemma rel_finish_infinite_limits ts ts' : tracks_rel k ts ts' -> tracks_rel k (finish_infinite_limits ts) (finish_infinite_limits ts').
+  Proof.
+    intros Hts. apply (rel_map (track_rel k) (track_rel k)); [|exact Hts]. intros t t' Ht. track_open Ht.
+    rewrite (sc_eqb_infinity k _ _ Hk Hgl). destruct (eqb (growth_limit t) infinity); [apply rel_set_limit|]; assumption.
+  Qed.
+
+  Lemma rel_span1_finish ts ts' : tracks_rel k ts ts' -> tracks_rel k (span1_finish ts) (span1_finish ts').
+  Proof.
+    intros Hts. apply (rel_map (track_rel k) (track_rel k)); [|exact Hts]. intros t t' Ht. cbv zeta.
+    assert (H1 : track_rel k
+              (if (zero <? limit_planned t)%num
+               then set_limit t (if (growth_limit t =? infinity)%num then limit_planned t else fmax (growth_limit t) (limit_planned t))
+               else t)
+              (if (zero <? limit_planned t')%num
+               then set_limit t' (if (growth_limit t' =? infinity)%num then limit_planned t' else fmax (growth_limit t') (limit_planned t'))
+               else t')).
+    { track_open Ht. rewrite (sc_ltb k _ _ _ _ Hk (sc_zero k) Hlp). destruct (ltb zero (limit_planned t)); [|exact Ht].
+      apply rel_set_limit; [exact Ht|]. rewrite (sc_eqb_infinity k _ _ Hk Hgl).
+      destruct (eqb (growth_limit t) infinity); [assumption | apply (sc_max k); assumption]. }
+    match goal with H : track_rel k ?a ?a' |- _ =>
+      lazymatch a with (if _ then _ else _) => set (t1 := a) in *; set (t1' := a') in * end end.
+    assert (H2 : track_rel k (set_limit_planned (set_inf_growable t1 false) zero) (set_limit_planned (set_inf_growable t1' false) zero))
+      by (apply rel_set_limit_planned; [apply rel_set_inf_growable; exact H1 | apply sc_zero]).
+    set (t2 := set_limit_planned (set_inf_growable t1 false) zero) in *.
+    set (t2' := set_limit_planned (set_inf_growable t1' false) zero) in *.
+    track_open H2. rewrite (sc_ltb k _ _ _ _ Hk Hgl Hbase). destruct (ltb (growth_limit t2) (base_size t2)); [apply rel_set_limit|]; assumption.
+  Qed.
 End Kernels.
